@@ -179,3 +179,69 @@ def lockstep_readback(model, payload):
         shutil.rmtree(tmp, ignore_errors=True)
     return {"reproduced": False, "detail": "%d lock-step histories over values with a non-identical stored form: the wrapped store answers like the bare one" % n}
 
+
+class Blob:
+    """a value that supports weak references and is re-created by every read of the file store"""
+
+    def __init__(self, tag):
+        self.tag = tag
+
+    def __eq__(self, o):
+        return isinstance(o, Blob) and o.tag == self.tag
+
+    def __hash__(self):
+        return hash(self.tag)
+
+
+def retention_bound(model, payload):
+    """The cache never retains more fetched objects than its bound -- wherever it keeps them: the wrapped local store
+    creates a new object for every read, so the objects that are still alive after a garbage collection (weak references on
+    everything fetch_blob returned) are exactly what the cache retains.  Every sequence of <= 5 operations
+    {fetch_blob, has_blob} x (capacity + 2) keys, capacities 1, 2, 3; after every operation: alive <= capacity, and the
+    answers are those of the bare store."""
+    import gc
+    import itertools
+    import shutil
+    import tempfile
+    import weakref
+    from dds.store import LocalFileStore
+    from dds._lru_store import LRUCacheStore
+
+    tmp = tempfile.mkdtemp(prefix="dds_h_lru_ret_")
+    n = 0
+    try:
+        inner = LocalFileStore(tmp + "/i", tmp + "/d")
+        for i in range(5):
+            inner.store_blob("k%d" % i, Blob(i), None)
+        for cap in (1, 2, 3):
+            keys = ["k%d" % i for i in range(cap + 2)]
+            ops = [(o, k) for o in ("fetch", "has") for k in keys]
+            for L in (3, 4, 5):
+                for seq in itertools.product(ops, repeat=L):
+                    if L > cap + 2 and sum(1 for o_, _ in seq if o_ == "has") > 1:
+                        continue  # longer sequences: at most one presence check in between
+                    if len({k for o_, k in seq if o_ == "fetch"}) < min(cap + 1, L - 1):
+                        continue  # only sequences that can overflow the bound
+                    n += 1
+                    lru = LRUCacheStore(inner, num_elem=cap)
+                    refs = []
+                    for i, (o, k) in enumerate(seq):
+                        if o == "fetch":
+                            v = lru.fetch_blob(k)
+                            if v != Blob(int(k[1:])):
+                                return {"reproduced": True, "detail": "capacity %d, operations %s: fetch_blob(%s) -> %r" % (cap, list(seq), k, v), "inputs": {"capacity": cap, "ops": [list(x) for x in seq]}}
+                            refs.append(weakref.ref(v))
+                            del v
+                        elif lru.has_blob(k) is not True:
+                            return {"reproduced": True, "detail": "capacity %d, operations %s: has_blob(%s) is not True" % (cap, list(seq), k), "inputs": {"capacity": cap, "ops": [list(x) for x in seq]}}
+                        if n % 500 == 0:
+                            gc.collect()  # (entries are not in reference cycles: dropping the last reference frees them at once)
+                        alive = len({id(r()) for r in refs if r() is not None})
+                        if alive > cap:
+                            return {"reproduced": True, "detail": "capacity %d, operations %s: after step %d the cache keeps %d fetched objects alive (bound %d)" % (cap, ["%s(%s)" % x for x in seq], i + 1, alive, cap),
+                                    "inputs": {"capacity": cap, "ops": ["%s(%s)" % x for x in seq]}}
+                    del lru
+    finally:
+        shutil.rmtree(tmp, ignore_errors=True)
+    return {"reproduced": False, "detail": "%d operation sequences: never more live fetched objects than the bound" % n}
+
